@@ -195,7 +195,10 @@ impl Deref for Seed {
 }
 
 fn mnemonic_to_byte_length(len: usize) -> Result<usize> {
-    ensure!(matches!(len, 12..=24), "invalid mnemonic length {len}");
+    ensure!(
+        matches!(len, 12 | 15 | 18 | 21 | 24),
+        "invalid mnemonic length {len}"
+    );
 
     // NOTE: Derived from the BIP-0039 spec where `CS` is the checksum bit
     // length, `ENT` is the entropy bit length (so `8 * byte_length`) and `MS`
